@@ -1,5 +1,6 @@
 import XV.Model.SlotSched
 import XV.Model.Pow
+import XV.Model.Plug
 import XV.Drv.Util
 /-! driver of engine `sched` (C16); op formats are documented in go/cmd/sched/main.go -/
 namespace XV.Drv.Sched
@@ -118,6 +119,55 @@ def powfStep (ws : List String) : String :=
     | _, _, _, _, _ => "bad-op"
   | _ => "bad-op"
 
+/-- consensus kind tokens of the `plug` op -/
+def plugKind (s : String) : Option XV.Plug.Kind :=
+  if s == "s0" then some ⟨0, 0⟩ else if s == "s1" then some ⟨0, 1⟩ else if s == "p" then some ⟨1, 0⟩
+  else if s == "t" then some ⟨2, 0⟩ else if s == "x" then some ⟨3, 0⟩ else none
+
+def plugName (k : XV.Plug.Kind) : String :=
+  match k.name with | 0 => "single" | 1 => "pow" | 2 => "tdpos" | _ => "poa"
+
+/-- candidate tokens: which instances' `CheckMinerMatch` the block passes (decided per plugin elsewhere) -/
+def plugSat (cand : String) : Option (XV.Plug.Kind → Bool) :=
+  if cand == "s0" then some (fun k => k == ⟨0, 0⟩)
+  else if cand == "s1" then some (fun k => k == ⟨0, 1⟩)
+  else if cand == "sp0" then some (fun k => k == ⟨0, 0⟩)
+  else if cand == "p" then some (fun k => k.name == 1)
+  else if cand == "ps0" then some (fun k => k.name == 1 || k == ⟨0, 0⟩)
+  else if cand == "t" then some (fun k => k.name == 2)
+  else if cand == "x" then some (fun k => k.name == 3)
+  else if cand == "n" then some (fun _ => false)
+  else none
+
+/-- run the events; `none` = malformed (number of `U` ≠ number of upgrades), `some none` = an upgrade whose
+fate depends on the map order -/
+def plugRun : XV.Plug.Node → List Char → List XV.Plug.Kind → Option (Option XV.Plug.Node)
+  | n, [], [] => some (some n)
+  | _, [], _ :: _ => none
+  | n, 'R' :: evs, ups => plugRun (XV.Plug.restart n) evs ups
+  | n, 'U' :: evs, k :: ups =>
+    let c : XV.Plug.Stored := if n.stored.isEmpty then [(0, n.genesis)] else n.stored
+    if XV.Plug.ambiguous c k then some none else plugRun (XV.Plug.upgrade n k) evs ups
+  | _, _, _ => none
+
+def plugStep (ws : List String) : String :=
+  match ws with
+  | [g, ups, evs, cand] =>
+    let upToks := if ups == "-" then [] else ups.splitOn ","
+    let evChars := if evs == "-" then [] else evs.toList
+    match plugKind g, upToks.mapM plugKind, plugSat cand with
+    | some g, some ups, some sat =>
+      if evChars.length > 12 then "bad-op" else
+      match plugRun (XV.Plug.boot g []) evChars ups with
+      | none => "bad-op"
+      | some none => "ambiguous"
+      | some (some n) =>
+        match XV.Plug.inForce n with
+        | none => "reject none"
+        | some k => (if XV.Plug.check n sat then "accept " else "reject ") ++ plugName k
+    | _, _, _ => "bad-op"
+  | _ => "bad-op"
+
 def step (_ : Unit) (line : String) : Unit × String :=
   let ws := words line
   ((), match ws with
@@ -172,6 +222,7 @@ def step (_ : Unit) (line : String) : Unit × String :=
     | _, _, _, _ => "bad-op"
   | "pow" :: rest => powStep rest
   | "powf" :: rest => powfStep rest
+  | "plug" :: rest => plugStep rest
   | _ => "bad-op")
 
 def run : IO Unit := loop step ()
